@@ -332,3 +332,11 @@ package types
 //@ func (params Params) ContainsMinter(sequenceId) (res)
 //@   trusted
 //@   ensures res == paramsContainSeq(snap(params), sequenceId)
+
+//@ // legacy (pre-v1.2.0) minter configuration: its validation is not verified (assumed to terminate; nothing is learned from it,
+//@ // except that validation never replaces a list element by nil)
+//@ func (params MinterConfig) Validate() (err)
+//@   trusted
+//@   modifies elems(params.Minters)
+//@   ensures err == nil ==> (forall i: int :: {params.Minters[i]} 0 <= i && i < len(params.Minters) ==> params.Minters[i] != nil)
+
